@@ -444,7 +444,54 @@ def _judge_substitute(model, fn, module):
     glob = module_env(module.tree, {})
     params = [a.arg for a in fn.args.args]
     kx = Node("kx")
+    class IM:
+        """a mapping that cannot be changed in place (immutabledict, the
+        library's own choice for keyword arguments): update() / copy() hand
+        back mappings, they do not alter this one"""
+
+        def __init__(self, d):
+            self._d = dict(d)
+
+        def keys(self):
+            return list(self._d.keys())
+
+        def items(self):
+            return list(self._d.items())
+
+        def values(self):
+            return list(self._d.values())
+
+        def __iter__(self):
+            return iter(self._d)
+
+        def __len__(self):
+            return len(self._d)
+
+        def __getitem__(self, k):
+            return self._d[k]
+
+        def __contains__(self, k):
+            return k in self._d
+
+        def get(self, k, dflt=None):
+            return self._d.get(k, dflt)
+
+        def copy(self):
+            return IM(self._d)
+
+        def update(self, *a, **k):
+            d = dict(self._d)
+            d.update(*a, **k)
+            return IM(d)
+
+        def __eq__(self, o):
+            return isinstance(o, IM) and o._d == self._d
+
+        def __hash__(self):
+            return 0
     scenarios = [
+        ("an immutable mapping and keyword assignments",
+         IM({kx: "R1", "y": "R2"}), {"z": "R5"}),
         ("a mapping with a node key and a name key, no keywords",
          {kx: "R1", "y": "R2"}, {}),
         ("a mapping and keyword assignments, one of them for a name of the "
@@ -455,12 +502,13 @@ def _judge_substitute(model, fn, module):
     ]
     for label, table, kw in scenarios:
         seen = []
-        orig = None if table is None else dict(table)
+        orig = None if table is None else dict(
+            table._d if isinstance(table, IM) else table)
 
         def make(it, nd, a, k, seen=seen):
-            if len(a) != 1 or k or not isinstance(a[0], dict):
+            if len(a) != 1 or k or not isinstance(a[0], (dict, IM)):
                 raise AnalysisError("make_subst_func(...) call shape")
-            seen.append(dict(a[0]))
+            seen.append(dict(a[0]._d if isinstance(a[0], IM) else a[0]))
             return ("lookup", len(seen) - 1)
 
         def mvar(it, nd, a, k):
@@ -470,8 +518,9 @@ def _judge_substitute(model, fn, module):
             for pre in ("", "primitives.", "p.", "prim.", "pymbolic.",
                         "pymbolic.primitives."):
                 calls[pre + nm] = mvar
-        it = Interp(calls=calls, attrs=lambda it_, n_, b, a: Opaque(
-            ast.unparse(n_)), globals_=glob, max_steps=8000)
+        it = Interp(calls=calls, attrs=lambda it_, n_, b, a: (
+            getattr(b, a) if isinstance(b, IM) and hasattr(b, a) else Opaque(
+                ast.unparse(n_))), globals_=glob, max_steps=8000)
         mapper_cls = lambda f: (lambda e: ("applied", f, e))   # noqa: E731
         try:
             got = it.call_function(
@@ -484,7 +533,8 @@ def _judge_substitute(model, fn, module):
         except StepBound:
             wit.append(f"{label}: does not terminate")
             continue
-        if table is not None and table != orig:
+        if table is not None and (
+                table._d if isinstance(table, IM) else table) != orig:
             wit.append(f"{label}: the caller's mapping is changed")
             continue
         want = dict(orig or {})
@@ -515,7 +565,7 @@ def _check_substitute(ctx, model):
         ctx.extra["judge_unavailable:substitute"] = str(e)   # rules decide
     if wit is not None:
         ctx.ob("P0/substitute/table-semantics", not wit, m0.loc(fn0),
-               "interpreted on 5 combinations of mapping and keyword "
+               "interpreted on 6 combinations of mapping and keyword "
                "assignments: the lookup is made from the caller's entries, "
                "keys as given, keywords over them; the caller's mapping is "
                "untouched" if not wit else
